@@ -27,7 +27,7 @@ theorem IsRnd.err {x v : ℚ} (h : IsRnd x v) : |v - x| ≤ x / 2 ^ 53 := by
     set t := x / (2 : ℚ) ^ e with ht
     have hxt : x = t * (2 : ℚ) ^ e := by rw [ht]; field_simp
     have hn := rheQ_near t
-    have hd : v - x = ((rheQ t : ℚ) - t) * (2 : ℚ) ^ e := by rw [hv, hxt]; ring_nf; rw [← hxt]; ring_nf
+    have hd : v - x = ((rheQ t : ℚ) - t) * (2 : ℚ) ^ e := by rw [hv]; linarith [hxt]
     rw [hd, abs_mul, abs_of_pos hp]
     have hle : |(rheQ t : ℚ) - t| * (2 : ℚ) ^ e ≤ 1 / 2 * (2 : ℚ) ^ e :=
       mul_le_mul_of_nonneg_right hn (le_of_lt hp)
@@ -51,7 +51,7 @@ theorem IsRnd.lower {x v : ℚ} (h : IsRnd x v) : x * (1 - 1 / 2 ^ 53) ≤ v := 
 
 /-- `mulF64Mag a 1000 w` (the magnitude of `NewSatPerKWeight(a, w)`) is within 0.51 of `1000·a/w`
     whenever that quotient is at most `2^40`. -/
-theorem mulF64Mag_1000_accuracy (a w : Nat) (hw : 0 < w) (hx : 1000 * a ≤ 2 ^ 40 * w) :
+theorem mulF64Mag_1000_accuracy (a w : Nat) (hw : 0 < w) (hx : 1000 * a ≤ 1099511627776 * w) :
     ((mulF64Mag a 1000 w : Nat) : ℚ) ≤ (1000 * a : ℚ) / w + 51 / 100 ∧
     (1000 * a : ℚ) / w - 51 / 100 ≤ ((mulF64Mag a 1000 w : Nat) : ℚ) := by
   set c : ℚ := 1 + 1 / 2 ^ 53 with hc
@@ -64,7 +64,10 @@ theorem mulF64Mag_1000_accuracy (a w : Nat) (hw : 0 < w) (hx : 1000 * a ≤ 2 ^ 
   have hx0 : 0 ≤ x := by rw [hxdef]; positivity
   have hxle : x ≤ 2 ^ 40 := by
     rw [hxdef, div_le_iff₀ hwq]
-    exact_mod_cast hx
+    have : ((1000 * a : ℕ) : ℚ) ≤ ((1099511627776 * w : ℕ) : ℚ) := by exact_mod_cast hx
+    push_cast at this
+    norm_num
+    linarith
   -- the five roundings
   have sA := f64OfNat_spec a
   have sN := f64OfNat_spec 1000
@@ -93,8 +96,9 @@ theorem mulF64Mag_1000_accuracy (a w : Nat) (hw : 0 < w) (hx : 1000 * a ≤ 2 ^ 
   rw [hres]
   have hAhi : A ≤ (a : ℚ) * c := sA.upper
   have hAlo : (a : ℚ) * d ≤ A := sA.lower
-  have hNhi : N ≤ (1000 : ℚ) * c := by have := sN.upper; simpa using this
-  have hNlo : (1000 : ℚ) * d ≤ N := by have := sN.lower; simpa using this
+  have e1000 : ((1000 : ℕ) : ℚ) = 1000 := by norm_num
+  have hNhi : N ≤ (1000 : ℚ) * c := by have := sN.upper; rw [e1000] at this; exact this
+  have hNlo : (1000 : ℚ) * d ≤ N := by have := sN.lower; rw [e1000] at this; exact this
   constructor
   · -- upper bound
     have h1 : N / D ≤ (1000 * c) / (w * d) :=
@@ -146,30 +150,44 @@ theorem mulF64Mag_1000_accuracy (a w : Nat) (hw : 0 < w) (hx : 1000 * a ≤ 2 ^ 
     have e3 : (1 : ℚ) / 2 ^ 10 + 1 / 2 ^ 10 + 1 / 2 ≤ 51 / 100 := by norm_num
     linarith
 
+theorem newSatPerKWeight_eq (M : MulDiv) (fee : Int) (wu : Nat) :
+    newSatPerKWeight M fee wu = M fee 1000 wu := rfl
+
+theorem goMulF64_natCast (a n d : Nat) (h : (mulF64Mag a n d : Int) < 2 ^ 63) :
+    goMulF64 (a : Int) n d = mulF64Mag a n d := by
+  have h' : (mulF64Mag (a : Int).natAbs n d : Int) < 2 ^ 63 := by
+    rw [Int.natAbs_natCast]; exact h
+  have := goMulF64_of_nonneg (a := (a : Int)) (Int.natCast_nonneg a) n d h'
+  rw [Int.natAbs_natCast] at this
+  exact this
+
 /-- `budget_rate_accuracy` — `NewSatPerKWeight(budget, weight)` in Go's arithmetic, as an integer
     statement: `|rate·weight − budget·1000| ≤ 0.51·weight`, for every budget `≥ 0` and weight
-    `> 0` with budget rate at most `2^40` sat/kw. -/
+    `> 0` with budget rate at most `2^40 = 1099511627776` sat/kw. -/
 theorem budget_rate_accuracy (budget : Int) (w : Nat) (hb : 0 ≤ budget) (hw : 0 < w)
-    (hx : 1000 * budget ≤ 2 ^ 40 * (w : Int)) :
+    (hx : 1000 * budget ≤ 1099511627776 * (w : Int)) :
     100 * (newSatPerKWeight goMulF64 budget w * w - 1000 * budget) ≤ 51 * w ∧
     100 * (1000 * budget - newSatPerKWeight goMulF64 budget w * w) ≤ 51 * w ∧
-    0 ≤ newSatPerKWeight goMulF64 budget w ∧ newSatPerKWeight goMulF64 budget w ≤ 2 ^ 40 + 1 := by
+    0 ≤ newSatPerKWeight goMulF64 budget w ∧ newSatPerKWeight goMulF64 budget w ≤ 1099511627777 := by
   obtain ⟨a, rfl⟩ := Int.eq_ofNat_of_zero_le hb
-  have hx' : 1000 * a ≤ 2 ^ 40 * w := by exact_mod_cast hx
+  have hx' : 1000 * a ≤ 1099511627776 * w := by exact_mod_cast hx
   obtain ⟨hup, hlo⟩ := mulF64Mag_1000_accuracy a w hw hx'
   have hwq : (0 : ℚ) < w := by exact_mod_cast hw
-  have hxle : (1000 * a : ℚ) / w ≤ 2 ^ 40 := by
-    rw [div_le_iff₀ hwq]; exact_mod_cast hx'
-  have hsmall : (mulF64Mag a 1000 w : Int) ≤ 2 ^ 40 + 1 := by
-    have : ((mulF64Mag a 1000 w : Nat) : ℚ) ≤ 2 ^ 40 + 51 / 100 := by linarith
-    have h2 : ((mulF64Mag a 1000 w : Nat) : ℚ) < ((2 ^ 40 + 1 : Nat) : ℚ) := by push_cast; linarith
-    have h3 : mulF64Mag a 1000 w < 2 ^ 40 + 1 := by exact_mod_cast h2
+  have hxle : (1000 * a : ℚ) / w ≤ 1099511627776 := by
+    rw [div_le_iff₀ hwq]
+    have : ((1000 * a : ℕ) : ℚ) ≤ ((1099511627776 * w : ℕ) : ℚ) := by exact_mod_cast hx'
+    push_cast at this
+    linarith
+  have hsmall : mulF64Mag a 1000 w ≤ 1099511627777 := by
+    have h2 : ((mulF64Mag a 1000 w : Nat) : ℚ) < ((1099511627778 : Nat) : ℚ) := by push_cast; linarith
+    have h3 : mulF64Mag a 1000 w < 1099511627778 := by exact_mod_cast h2
     omega
   have hval : newSatPerKWeight goMulF64 (a : Int) w = mulF64Mag a 1000 w := by
-    unfold newSatPerKWeight
-    have := goMulF64_of_nonneg (a := (a : Int)) (Int.natCast_nonneg a) 1000 w
-      (by simp only [Int.natAbs_natCast]; omega)
-    simpa using this
+    rw [newSatPerKWeight_eq]
+    apply goMulF64_natCast
+    have : ((mulF64Mag a 1000 w : Nat) : Int) ≤ 1099511627777 := by exact_mod_cast hsmall
+    have e63 : (2 : Int) ^ 63 = 9223372036854775808 := by norm_num
+    rw [e63]; omega
   rw [hval]
   have hupw : ((mulF64Mag a 1000 w : Nat) : ℚ) * w ≤ 1000 * a + 51 / 100 * w := by
     have := mul_le_mul_of_nonneg_right hup (le_of_lt hwq)
@@ -179,7 +197,7 @@ theorem budget_rate_accuracy (budget : Int) (w : Nat) (hb : 0 ≤ budget) (hw : 
     have := mul_le_mul_of_nonneg_right hlo (le_of_lt hwq)
     have e : ((1000 * a : ℚ) / w - 51 / 100) * w = 1000 * a - 51 / 100 * w := by field_simp
     rw [e] at this; exact this
-  refine ⟨?_, ?_, Int.natCast_nonneg _, hsmall⟩
+  refine ⟨?_, ?_, Int.natCast_nonneg _, by exact_mod_cast hsmall⟩
   · have : (100 * (((mulF64Mag a 1000 w : Nat) : ℚ) * w - 1000 * a)) ≤ 51 * w := by linarith
     exact_mod_cast this
   · have : (100 * (1000 * (a : ℚ) - ((mulF64Mag a 1000 w : Nat) : ℚ) * w)) ≤ 51 * w := by linarith
@@ -187,29 +205,29 @@ theorem budget_rate_accuracy (budget : Int) (w : Nat) (hb : 0 ≤ budget) (hw : 
 
 /-- `ceiling_fee_bounds` — the fee of a transaction of weight `w` at the budget rate:
     `budget − ⌊0.00051·w⌋ − 1 ≤ FeeForWeight(NewSatPerKWeight(budget, w), w) ≤ budget + ⌊0.00051·w⌋`
-    (weights up to `2^20` wu, budget rate up to `2^40` sat/kw).  The upper bound can be attained
-    (`no_tx_at_ceiling_by_deadline_witness`: budget 3007, w 2350 → fee 3008). -/
-theorem ceiling_fee_bounds (budget : Int) (w : Nat) (hb : 0 ≤ budget) (hw : 0 < w) (hw' : w ≤ 2 ^ 20)
-    (hx : 1000 * budget ≤ 2 ^ 40 * (w : Int)) :
+    (weights up to `2^20 = 1048576` wu, budget rate up to `2^40` sat/kw).  The upper bound can be
+    attained (`no_tx_at_ceiling_by_deadline_witness`: budget 3007, w 2350 → fee 3008). -/
+theorem ceiling_fee_bounds (budget : Int) (w : Nat) (hb : 0 ≤ budget) (hw : 0 < w) (hw' : w ≤ 1048576)
+    (hx : 1000 * budget ≤ 1099511627776 * (w : Int)) :
     feeForWeight (newSatPerKWeight goMulF64 budget w) w ≤ budget + 51 * w / 100000 ∧
     budget - 51 * w / 100000 - 1 ≤ feeForWeight (newSatPerKWeight goMulF64 budget w) w := by
   obtain ⟨h1, h2, h3, h4⟩ := budget_rate_accuracy budget w hb hw hx
-  set r := newSatPerKWeight goMulF64 budget w with hr
+  generalize newSatPerKWeight goMulF64 budget w = r at h1 h2 h3 h4 ⊢
   have hwI : InI64 (w : Int) := by simp only [InI64]; omega
-  have hrw : r * w ≤ (2 ^ 40 + 1) * 2 ^ 20 := by
-    calc r * (w : Int) ≤ (2 ^ 40 + 1) * (w : Int) := Int.mul_le_mul_of_nonneg_right h4 (by omega)
-      _ ≤ (2 ^ 40 + 1) * 2 ^ 20 := Int.mul_le_mul_of_nonneg_left (by exact_mod_cast hw') (by norm_num)
+  have hrw : r * w ≤ 1099511627777 * 1048576 := by
+    calc r * (w : Int) ≤ 1099511627777 * (w : Int) := Int.mul_le_mul_of_nonneg_right h4 (by omega)
+      _ ≤ 1099511627777 * 1048576 := Int.mul_le_mul_of_nonneg_left (by exact_mod_cast hw') (by norm_num)
   have hrw0 : 0 ≤ r * w := Int.mul_nonneg h3 (by omega)
   have hpI : InI64 (r * w) := by
     simp only [InI64]
-    have e : ((2 : Int) ^ 40 + 1) * 2 ^ 20 = 1152921504607895552 := by norm_num
+    have e : (1099511627777 : Int) * 1048576 = 1152921504607895552 := by norm_num
     rw [e] at hrw; omega
   rw [feeForWeight_exact hwI hpI, Int.tdiv_eq_ediv_of_nonneg hrw0]
   constructor <;> omega
 
 /-- below 1961 wu the rounding of the budget rate can never push the fee above the budget. -/
 theorem ceiling_fee_within_budget_of_small_weight (budget : Int) (w : Nat) (hb : 0 ≤ budget)
-    (hw : 0 < w) (hw' : w < 1961) (hx : 1000 * budget ≤ 2 ^ 40 * (w : Int)) :
+    (hw : 0 < w) (hw' : w < 1961) (hx : 1000 * budget ≤ 1099511627776 * (w : Int)) :
     feeForWeight (newSatPerKWeight goMulF64 budget w) w ≤ budget := by
   have := (ceiling_fee_bounds budget w hb hw (by omega) hx).1
   omega
@@ -217,7 +235,7 @@ theorem ceiling_fee_within_budget_of_small_weight (budget : Int) (w : Nat) (hb :
 /-- `MaxFeeRateAllowed` is the budget rate or, if that is larger, `MaxFeeRate` — and then the
     budget covers the fee at `MaxFeeRate` up to the same rounding slack. -/
 theorem maxFeeRateAllowed_accuracy (budget : Int) (w : Nat) (maxFeeRate : Int) (hb : 0 ≤ budget)
-    (hw : 0 < w) (hx : 1000 * budget ≤ 2 ^ 40 * (w : Int)) :
+    (hw : 0 < w) (hx : 1000 * budget ≤ 1099511627776 * (w : Int)) :
     (maxFeeRateAllowed goMulF64 budget w maxFeeRate = newSatPerKWeight goMulF64 budget w ∧
       100 * (maxFeeRateAllowed goMulF64 budget w maxFeeRate * w - 1000 * budget) ≤ 51 * w ∧
       100 * (1000 * budget - maxFeeRateAllowed goMulF64 budget w maxFeeRate * w) ≤ 51 * w) ∨
